@@ -17,15 +17,18 @@ from gen import pycore as P
 MODELS = ['PyCore']
 LEAN_TARGETS = ['JediModel.Props.C02', 'JediModel.Drivers.C02']
 MANIFEST = dict(
-    text='Theorem may_sound over Model/PyCore: for every program of the pure core (literals, names, tuples, '
-         'constant indexing, unpacking, calls of single-return functions, classes with class attributes, '
-         'instantiation, attribute access, single inheritance, opaque conditionals) and every expression the '
-         'concrete semantics evaluates to a value v, jedi\'s set-valued inference (transcribed as mayE) contains a '
+    text='Theorem may_sound_partial over Model/PyCore: for every program of the pure core (literals, names, tuples, '
+         'constant indexing, unpacking, calls of single-return functions, classes with class attributes, __init__ '
+         'storing self attributes, methods, instantiation with arguments, attribute access, bound method calls, '
+         'single inheritance, opaque conditionals) satisfying the static hypothesis WFClasses, and every expression '
+         'the concrete semantics evaluates to a value v, jedi\'s set-valued inference (transcribed as mayE) contains a '
          'shape abstracting v - in particular the creating class/def statement of v is reported; may_exact: without '
-         'conditionals the set is a singleton. Both interpreters share one fuel-indexed skeleton; induction on fuel. '
+         'conditionals (and with single-assignment __init__) the set is a singleton. FULL statement without WFClasses '
+         'is false (kernel-checked witness, replayed on the real code). Both interpreters share one fuel-indexed '
+         'skeleton; induction on fuel. '
          'Tie: jedi = mayE (exact, modulo the API-level merge of a class with its instance) and CPython = evalC '
          '(exact, nested shapes) on generated programs.',
-    note='Modelled not verified: only the PyCore fragment is under the theorem (no methods/self attributes, loops, '
+    note='Modelled not verified: only the PyCore fragment is under the theorem (no loops, attribute writes outside __init__, '
          'generators, decorators, containers other than tuples, multi-module). The pretty-printer of the harness '
          'and the name<->index mapping are trusted. Outside the fragment: nothing is claimed.',
     technique='Lean 4 proof (abstract interpretation soundness by simulation) + three-way differential correspondence',
@@ -53,6 +56,8 @@ def encode(prog):
             return [k]
         if k == 'name':
             return ['name', nm(e[1])]
+        if k == 'self':
+            return ['self']
         if k == 'tuple':
             return ['tuple', [ex(x) for x in e[1]]]
         if k == 'index':
@@ -74,11 +79,30 @@ def encode(prog):
         elif k == 'def':
             out.append(['def', nm(st[1]), [nm(x) for x in st[2]], ex(st[3])])
         elif k == 'class':
+            init = st[4] if len(st) > 4 else None
+            methods = st[5] if len(st) > 5 else []
             out.append(['class', nm(st[1]), None if st[2] is None else nm(st[2]),
-                        [[nm('.' + a), ex(e)] for a, e in st[3]]])
+                        [[nm('.' + a), ex(e)] for a, e in st[3]],
+                        None if init is None else [[nm(x) for x in init[0]], [[nm('.' + a), ex(e)] for a, e in init[1]]],
+                        [[nm('.' + m), [nm(x) for x in ps], ex(ret)] for m, ps, ret in methods]])
         elif k == 'probe':
             out.append(['probe', ex(st[1])])
-    return out
+    return out, nm
+
+
+def derived_init(prog):
+    """some class with a base defines __init__ (outside hypothesis WFClasses)"""
+    return any(st[0] == 'class' and st[2] is not None and len(st) > 4 and st[4] is not None for st in prog)
+
+
+def multi_assign_init(prog):
+    """some __init__ assigns one attribute twice (outside hypothesis SingleAssignInit)"""
+    for st in prog:
+        if st[0] == 'class' and len(st) > 4 and st[4] is not None:
+            names = [a for a, _ in st[4][1]]
+            if len(names) != len(set(names)):
+                return True
+    return False
 
 
 def has_tern(prog):
@@ -91,22 +115,39 @@ def top_of_runtime(sh, line2stmt):
         return ('builtin', sh)
     if sh[0] == 'tuple':
         return ('builtin', 'tuple')
+    if sh[0] == 'meth':
+        return ('meth', sh[1])                  # identified by the line of its `def`
     return (sh[0], line2stmt.get(sh[1], -sh[1]))
 
 
-def runtime_to_model(sh, line2stmt):
+def runtime_to_model(sh, line2stmt, meth2line):
     if isinstance(sh, str):
         return sh
     if sh[0] == 'tuple':
-        return ['tuple', [runtime_to_model(x, line2stmt) for x in sh[1]]]
+        return ['tuple', [runtime_to_model(x, line2stmt, meth2line) for x in sh[1]]]
+    if sh[0] == 'meth':
+        return ['meth', sh[1]]
     return [sh[0], line2stmt.get(sh[1], -1)]
 
 
-def top_of_model(s):
+def model_value_norm(v, meth_line):
+    """model value JSON -> comparable with runtime_to_model (methods by def line)"""
+    if isinstance(v, str) or v is None:
+        return v
+    if v[0] == 'tuple':
+        return ['tuple', [model_value_norm(x, meth_line) for x in v[1]]]
+    if v[0] == 'meth':
+        return ['meth', meth_line.get((v[1], v[2]), -1)]
+    return v
+
+
+def top_of_model(s, meth_line):
     if isinstance(s, str):
         return ('builtin', s)
     if s[0] == 'tuple':
         return ('builtin', 'tuple')
+    if s[0] == 'meth':
+        return ('meth', meth_line.get((s[1], s[2]), -1))
     return (s[0], s[1])
 
 
@@ -119,6 +160,8 @@ def collapse(tops):
 def analyse(prog):
     import jedi
     text, probes, def_lines = P.source(prog)
+    meth_lines = def_lines.pop('methods')
+    methline_set = set(meth_lines.values())
     line2stmt = {ln: i for i, ln in def_lines.items()}
     seen, err = P.run(prog)
     out = {'prog': prog, 'src': text, 'probes': [], 'err': err, 'tern': has_tern(prog)}
@@ -127,7 +170,7 @@ def analyse(prog):
                'runtime': seen.get(n), 'runtime_top': None, 'runtime_model': None}
         if n in seen:
             rec['runtime_top'] = list(top_of_runtime(seen[n], line2stmt))
-            rec['runtime_model'] = runtime_to_model(seen[n], line2stmt)
+            rec['runtime_model'] = runtime_to_model(seen[n], line2stmt, None)
         try:
             ds = jedi.Script(text).infer(line, col)
             js = set()
@@ -136,7 +179,10 @@ def analyse(prog):
                     js.add(('builtin', d.name) if d.type == 'instance' else ('builtin-' + d.type, d.name))
                 elif d.module_name == '__main__':
                     kind = {'instance': 'inst', 'class': 'cls', 'function': 'func'}.get(d.type, d.type)
-                    js.add((kind, line2stmt.get(d.line, -(d.line or 0))))
+                    if kind == 'func' and d.line in methline_set:
+                        js.add(('meth', d.line))
+                    else:
+                        js.add((kind, line2stmt.get(d.line, -(d.line or 0))))
                 else:
                     js.add(('other', d.module_name + '.' + str(d.name)))
             rec['jedi'] = sorted([list(t) for t in js], key=repr)
@@ -156,11 +202,15 @@ def programs(ctx):
 def run(ctx):
     progs = programs(ctx)
     outs = common.parallel_map('props.c02', 'analyse', progs)
-    reqs = [{'op': 'run', 'prog': encode(p), 'fuel': FUEL} for p in progs]
+    encs = [encode(p) for p in progs]
+    reqs = [{'op': 'run', 'prog': e[0], 'fuel': FUEL} for e in encs]
     answers = common.run_driver_parallel('C02', reqs) if ctx.model_ok else [None] * len(progs)
     how = 'jedi.Script(source).infer(line, 0) vs executing the program (harness/gen/pycore.py:run)'
-    for out, ans in zip(outs, answers):
+    for out, ans, (enc, nm), prog in zip(outs, answers, encs, progs):
         src = out['src']
+        _, _, dl = P.source(prog)
+        meth_line = {(i, nm.ids.get('.' + m) if m is not None else None): ln
+                     for (i, m), ln in dl['methods'].items()}
         for k, rec in enumerate(out['probes']):
             case = {'source': src, 'line': rec['line'], 'column': 0}
             if rec['raised']:
@@ -176,25 +226,31 @@ def run(ctx):
                 if rt not in J:
                     shape = 'class-and-instance-merged-by-api' if collapse({rt}) <= collapse(J) and \
                         rt[0] in ('inst', 'cls') else 'unclassified'
+                    if shape == 'unclassified' and derived_init(prog):
+                        shape = 'derived-init-hides-base-self-attribute'
+                    if ans is not None and ans.get('wf') and shape == 'unclassified':
+                        # may_sound_partial says this cannot happen when model = code
+                        ctx.tie_broken('theorem-vs-implementation:may_sound_partial',
+                                       short({'source': src, 'line': rec['line']}, 800))
                     ctx.fail('oracle', 'the class of the run-time value is not among the inferred definitions',
                              dict(case, shape=shape), expected=list(rt), observed=rec['jedi'], how=how)
-                elif not out['tern'] and J != {rt}:
+                elif not out['tern'] and not multi_assign_init(prog) and J != {rt}:
                     ctx.fail('oracle', 'only one value can reach the expression but infer reports more',
                              dict(case, shape='not-exact'), expected=[list(rt)], observed=rec['jedi'], how=how)
             # ---- correspondence
             if ans is None:
                 continue
-            if isinstance(ans, dict):
+            if 'error' in ans:
                 raise common.InfraError('driver: %r' % ans)
-            m = ans[k]
-            M = {top_of_model(s) for s in m['may']}
+            m = ans['probes'][k]
+            M = {top_of_model(s, meth_line) for s in m['may']}
             ctx.count('may', (src, rec['n']), nontrivial=len(M) > 0, bucket='|may|=%d' % min(len(M), 4))
             if not (J <= M and collapse(J) == collapse(M)):
                 ctx.tie_broken('correspondence:may', short({'source': src, 'line': rec['line'],
                                                             'jedi': sorted(J, key=repr), 'model': sorted(M, key=repr)}, 1500))
             if rec['runtime_model'] is not None:
                 ctx.count('exec', (src, rec['n']), nontrivial=True)
-                if m['exec'] != rec['runtime_model']:
+                if model_value_norm(m['exec'], meth_line) != rec['runtime_model']:
                     # the concrete semantics of the model disagrees with CPython: model bug
                     ctx.tie_broken('correspondence:exec', short({'source': src, 'line': rec['line'],
                                                                  'cpython': rec['runtime_model'], 'model': m['exec']}, 1500))
@@ -210,6 +266,10 @@ def run(ctx):
 
 
 WITNESSES = [
+    # a derived __init__ hides the base __init__: jedi still reports the base's self attribute
+    [['class', 'C0', None, [], [[], [['b0', ['int']]]], []],
+     ['class', 'C1', 'C0', [['b0', ['str']]], [[], []], []],
+     ['probe', ['attr', ['call', ['name', 'C1'], []], 'b0']]],
     # a class and its instance reach one expression: the API reports only one of them
     [['class', 'C0', None, []], ['assign', 'v0', ['tern', True, ['call', ['name', 'C0'], []], ['name', 'C0']]],
      ['probe', ['name', 'v0']]],
